@@ -105,3 +105,6 @@ Definition split_ws (s : list N) : list (list N) :=
 
 (* str.replace(x, y) for one-character x and y *)
 Definition replace_char (x y : N) (s : list N) : list N := map (fun c => if c =? x then y else c) s.
+
+(* str.endswith(suf) *)
+Definition ends_with (suf s : list N) : bool := starts_with (rev suf) (rev s).
